@@ -17,6 +17,7 @@ from pydiverse.common import (
 from pydiverse.transform._internal.backend.table_impl import (
     TableImpl,
     get_left_right_on,
+    is_equi_join_pred,
     split_join_cond,
 )
 from pydiverse.transform._internal.backend.targets import Pandas, Polars, Target
@@ -405,8 +406,9 @@ def compile_ast(
         assert not set(right_name_in_df.keys()) & set(name_in_df.keys())
         name_in_df.update(right_name_in_df)
 
-        eq_predicates = [pred for pred in predicates if pred.op == ops.equal]
-        left_on, right_on = get_left_right_on(eq_predicates, name_in_df, right_name_in_df)
+        left_uuids = set(name_in_df.keys()) - set(right_name_in_df.keys())
+        eq_predicates = [pred for pred in predicates if is_equi_join_pred(pred, left_uuids, set(right_name_in_df.keys()))]
+        left_on, right_on = get_left_right_on(eq_predicates, left_uuids, right_name_in_df)
 
         # If there are only equality predicates, use normal join. Else use join_where
         if len(eq_predicates) == len(predicates):
